@@ -77,13 +77,15 @@ def regenerate():
     return True, out
 
 
-def coq_make(targets, timeout=1500):
+def coq_make(targets, timeout=1500, locked=False):
     """Incremental full (.vo) build of the given targets (paths relative to coq/)."""
-    with coq_lock():
+    if locked:
         ensure_makefile()
         cmd = ["timeout", str(timeout), "make", "-j%d" % NPROC] + list(targets)
         rc, out = sh(cmd, cwd=COQ, timeout=timeout + 30)
-    return rc == 0, out
+        return rc == 0, out
+    with coq_lock():
+        return coq_make(targets, timeout, locked=True)
 
 
 AUDIT_RE = re.compile(
@@ -234,6 +236,12 @@ class Ctx:
     def prove(self, files=None):
         """(Re)generate Generated.v, build the property's dependencies, re-check the property
         file itself and audit its assumptions. Returns True when every obligation is discharged."""
+        # Generated.v is shared by every check process: translate + build + re-check under one lock so that a
+        # concurrent check against another source tree (VERIF_REPO) cannot swap it in between
+        with coq_lock():
+            return self._prove_locked(files)
+
+    def _prove_locked(self, files=None):
         pid = self.pid
         files = files or ["theories/Properties/%s.v" % pid]
         ok, out = regenerate()
@@ -244,7 +252,7 @@ class Ctx:
         if bad:
             raise CheckError("forbidden vernacular in development:\n" + "\n".join(bad))
         targets = [f[:-2] + ".vo" for f in files]
-        ok, out = coq_make(targets)
+        ok, out = coq_make(targets, locked=True)
         self.checker_cmd = "cd /verif/coq && make %s && coqc -Q theories WF %s" % (
             " ".join(targets), " ".join(files))
         if not ok:
